@@ -5,6 +5,7 @@ import (
 	"io/fs"
 	"os"
 	"sort"
+	"strconv"
 	"strings"
 	"syscall"
 	"time"
@@ -655,4 +656,26 @@ func FileReadDir(of *os.File, n int) ([]os.DirEntry, error) {
 	}
 	f.dirPos += len(ents)
 	return ents, nil
+}
+
+// errnoError stands in for (syscall.Errno).Error: the message table lives in
+// package syscall's initialiser, which is not run.
+//
+//verif:stub (syscall.Errno).Error
+func errnoError(e syscall.Errno) string {
+	switch e {
+	case syscall.ENOENT:
+		return "no such file or directory"
+	case syscall.EEXIST:
+		return "file exists"
+	case syscall.ENOTDIR:
+		return "not a directory"
+	case syscall.EISDIR:
+		return "is a directory"
+	case syscall.ENOTEMPTY:
+		return "directory not empty"
+	case syscall.EINVAL:
+		return "invalid argument"
+	}
+	return "errno " + strconv.Itoa(int(e))
 }
